@@ -92,16 +92,18 @@ func judge(e *entry, b []byte) verdict {
 	if isNilAny(obj2) {
 		return verdict{viol: fmt.Sprintf("the re-encoding %x decodes to nil", re), kind: "idempotence"}
 	}
-	eq, _, err := equalAny(e, obj, obj2)
-	if err != nil {
-		return verdict{viol: "comparing the object with its decoded re-encoding: " + err.Error(), kind: "idempotence"}
-	}
+	eq, _, eqErr := equalAny(e, obj, obj2)
 	re2, err := safeEncode(e, obj2)
 	if err != nil || !sameEncoding(e, re, re2) {
 		return verdict{viol: fmt.Sprintf("encoding is not stable: %x then %x (err=%v)", re, re2, err), kind: "idempotence"}
 	}
 	note := ""
-	if !eq {
+	if eqErr != nil {
+		// Equal panics on this accepted object. For a type with a constructor the validity rules above
+		// have already refused nil components; what is left are plain data structs without a
+		// constructor (e.g. schnorrlike.Signature{E,R,S}), whose emptiness is the verifier's business.
+		note = "equal-panics-on-accepted-object"
+	} else if !eq {
 		// Both objects have the same canonical encoding but the type's Equal says "different":
 		// Equal is not reflexive on this (degenerate, e.g. nil-component) object. Types without a
 		// constructor have no rule that forbids such an object, so this is recorded, not asserted;
